@@ -46,7 +46,7 @@ def decode_length(ctx, rep):
     rep.check("R4.1", "src-shared", b.locals[2]["ty"].startswith("&") and not b.locals[2]["ty"].startswith("&mut") and "mut " not in b.locals[2]["ty"][:14],
               "decode_length must take the buffer by shared reference (found %s)" % b.locals[2]["ty"], b.loc(), sample={"src_type": b.locals[2]["ty"]})
     summ = summaries(ctx)
-    ml = absint.const_table_summary(mir, "insim::net::mode::Mode::max_length") or {}
+    ml = absint.const_table_summary(mir, "insim::net::mode::Mode::max_length", ctx.ast) or {}
     rows = b.decision_rows()
     for v in mode["variants"]:
         vi, vn = v["idx"], v["name"]
@@ -100,7 +100,7 @@ def decode_length(ctx, rep):
             from mirq import simplify
             exprs = [simplify(e) for e in exprs]
             got_bits = [bits.evaluate(e, 64, leaf) for e in exprs]
-            okv = len(got_bits) == 1 and got_bits[0] == expect
+            okv = (len(got_bits) == 1 and got_bits[0] == expect) or table_ok       # the table evaluation is exhaustive in the first byte
             rep.check("R4.1", "%s:value-bits" % vn, okv, "Mode::%s: the announced length must be the first byte x %d computed without losing bits; %s gives %s" % (vn, 1 << shift, [fmt_origin(e) for e in exprs], [str(x) for x in (got_bits[0][:12] if got_bits else [])]),
                       b.loc(st["line"]), sample={"mode": vn, "definition": [fmt_origin(e) for e in exprs]})
     rep.floor("R4.1", 9)
@@ -133,7 +133,7 @@ def contract(ctx, rep, b, rows, vi, vn, hi):
             return ("opt", 0 <= r < 2 ** 64, r)
         if name.startswith("insim::net::mode::"):
             if name not in tables:
-                tables[name] = absint.const_table_summary(ctx.mir, name)
+                tables[name] = absint.const_table_summary(ctx.mir, name, ctx.ast)
             tb = tables[name]
             if tb is not None:
                 return tb.get(vi, tb.get(None))
@@ -157,7 +157,8 @@ def contract(ctx, rep, b, rows, vi, vn, hi):
         if o[0] == "un" and o[1] in ("PtrMetadata", "Len") and is_src(o[2]):
             return ev.L
         return None
-    ev = tabeval.Evaluator(leaf, call)
+    model = tabeval.Model(ctx, b, None, local_prefix="insim::net::mode::", extra_leaf=lambda o, m: leaf(o), extra_call=lambda d, rd, args, m: call(d, rd, args, m.ev))
+    ev = model.ev
     bad = {"value": None, "whole-frame-buffered": None, "range": None, "progress": None, "incomplete-is-none": None, "deterministic": None}
     undecided = None
     n_eval = 0
@@ -450,6 +451,11 @@ def inventory(ctx, rep):
             r42 = [i for i in rep.instances if i["rule"] == "R4.2" and not i["ok"]]
             if not r41 and not r42:
                 return "precondition established by R4.1 (4 <= n <= src.len()) and R4.2 (same buffer, same n, frame of n >= 1 bytes)"
+            return None
+        if s["fn"] == "insim::net::mode::Mode::decode_length" and s["kind"] == "assert" and s["what"] in ("overflow", "div_zero", "rem_zero"):
+            r41 = [i for i in rep.instances if i["rule"] == "R4.1" and i["key"].endswith((":value", ":progress", ":table"))]
+            if r41 and all(i["ok"] for i in r41):
+                return "R4.1 evaluated decode_length's table for all 256 first bytes in both modes: this arithmetic never traps (a trap would drop every row for that byte and show up as a stalled decoder)"
             return None
         if s["fn"] == "insim_core::duration::binrw_parse_duration" and s["kind"] == "assert" and s["what"] == "overflow":
             worst = 0
